@@ -202,6 +202,32 @@ def belongs(v, tt, objtype_of=None):
 # stream (b): typed expressions with exact evaluation
 
 NUMT = ['int16', 'int32', 'int64', 'bigint', 'float32', 'float64', 'decimal']
+# implicit casts as documented in docs/reference/reference/edgeql/casts.csv ('impl' cells)
+IMPLICIT = {
+    'int16': {'int32', 'int64', 'float32', 'float64', 'bigint', 'decimal'},
+    'int32': {'int64', 'float64', 'bigint', 'decimal'},
+    'int64': {'float64', 'bigint', 'decimal'},
+    'float32': {'float64'},
+    'float64': set(),
+    'bigint': {'decimal'},
+    'decimal': set(),
+}
+
+
+def lub(types):
+    """the documented common type of a set of numeric types: the type every operand can be
+    implicitly cast to (or is), itself castable to every other such candidate; None if there is
+    none; '?' if an operand type is unknown"""
+    ts = [t for t in types]
+    if any(t is None or t == '?' for t in ts):
+        return '?'
+    ts = set(ts)
+    cands = [c for c in NUMT if all(t == c or c in IMPLICIT[t] for t in ts)]
+    if not cands:
+        return None
+    best = [c for c in cands if all(c == d or d in IMPLICIT[c] for d in cands)]
+    return best[0] if len(best) == 1 else '?'
+
 
 
 def lit(ty, n):
@@ -227,6 +253,8 @@ class EG:
         self.draw, self.st = draw, st
         self.types = set()
         self.feats = set()
+        self.doc_type = None
+        self.tmap = {}      # expression text -> documented static type (numeric name, None, or '?')
 
     def i(self, lo, hi):
         return self.draw(self.st.integers(lo, hi))
@@ -234,18 +262,25 @@ class EG:
     def pick(self, seq):
         return seq[self.i(0, len(seq) - 1)]
 
+    def reg(self, text, ty, vals):
+        self.tmap[text] = ty
+        return text, vals
+
+    def ty(self, text):
+        return self.tmap.get(text, '?')
+
     def atom(self, allow_extreme=True):
         c = self.i(0, 5)
         if c <= 2 or not allow_extreme:
             ty = self.pick(NUMT)
             self.types.add(ty)
             t, v = lit(ty, self.i(1, 3))
-            return t, [v]
+            return self.reg(t, ty, [v])
         if c == 3:
             h = self.pick([k for k in HOLDER if k != 'SStr'])
             self.types.add(HOLDER[h][0])
             self.feats.add('holder-path')
-            return f'{h}.v', [HOLDER[h][1]]
+            return self.reg(f'{h}.v', HOLDER[h][0], [HOLDER[h][1]])
         if c == 4:
             # a path through a union of holder types
             hs = [self.pick([k for k in HOLDER if k != 'SStr']) for _ in range(self.i(2, 3))]
@@ -254,17 +289,19 @@ class EG:
                 self.types.add(HOLDER[h][0])
             self.feats.add('union-pointer')
             form = self.i(0, 2)
+            ut = lub([HOLDER[h][0] for h in hs])
+            vals = [HOLDER[h][1] for h in hs]
             if form == 0:
-                return '{' + ', '.join(hs) + '}.v', [HOLDER[h][1] for h in hs]
+                return self.reg('{' + ', '.join(hs) + '}.v', ut, vals)
             if form == 1:
-                return '(' + ' union '.join(hs) + ').v', [HOLDER[h][1] for h in hs]
-            return '(select {' + ', '.join(hs) + '}).v', [HOLDER[h][1] for h in hs]
+                return self.reg('(' + ' union '.join(hs) + ').v', ut, vals)
+            return self.reg('(select {' + ', '.join(hs) + '}).v', ut, vals)
         ty = self.pick(NUMT)
         self.types.add(ty)
         cast = {'int16': 'int16', 'int32': 'int32', 'int64': 'int64', 'bigint': 'bigint',
                 'float32': 'float32', 'float64': 'float64', 'decimal': 'decimal'}[ty]
         self.feats.add('empty-set')
-        return f'<{cast}>{{}}', []
+        return self.reg(f'<{cast}>{{}}', ty, [])
 
     def expr(self, depth, allow_extreme=True):
         """a numeric set expression"""
@@ -283,19 +320,21 @@ class EG:
                 vals = [{'+': x + y, '-': x - y, '*': x * y}[op] for x in av for y in bv]
             except TypeError:
                 vals = None     # decimal with float: the compiler must reject
-            return f'({a} {op} {b})', vals
+            return self.reg(f'({a} {op} {b})', lub([self.ty(a), self.ty(b)]), vals)
         if c == 3:
             parts = [self.expr(depth - 1, allow_extreme) for _ in range(self.i(2, 3))]
             self.feats.add('set-constructor')
-            return '{' + ', '.join(t for t, _ in parts) + '}', _cat(parts)
+            return self.reg('{' + ', '.join(t for t, _ in parts) + '}', lub([self.ty(t) for t, _ in parts]),
+                            _cat(parts))
         if c == 4:
             a, b = self.expr(depth - 1, allow_extreme), self.expr(depth - 1, allow_extreme)
             self.feats.add('union')
-            return f'({a[0]} union {b[0]})', _cat([a, b])
+            return self.reg(f'({a[0]} union {b[0]})', lub([self.ty(a[0]), self.ty(b[0])]), _cat([a, b]))
         if c == 5:
             a, b = self.expr(depth - 1, allow_extreme), self.expr(depth - 1, allow_extreme)
             self.feats.add('coalesce')
             av, bv = _unwrap(a[1]), _unwrap(b[1])
+            self.tmap[f'({a[0]} ?? {b[0]})'] = lub([self.ty(a[0]), self.ty(b[0])])
             if av is None or bv is None:
                 return f'({a[0]} ?? {b[0]})', None
             # the left side may be a LIMITed subset: either side can show up
@@ -305,6 +344,7 @@ class EG:
             cond = self.i(0, 1)
             self.feats.add('if-else')
             av, bv = _unwrap(a[1]), _unwrap(b[1])
+            self.tmap[f'({a[0]} if {"true" if cond else "false"} else {b[0]})'] = lub([self.ty(a[0]), self.ty(b[0])])
             if av is None or bv is None:
                 return f'({a[0]} if {"true" if cond else "false"} else {b[0]})', None
             return f'({a[0]} if {"true" if cond else "false"} else {b[0]})', (av if cond else bv)
@@ -313,6 +353,7 @@ class EG:
             fn = self.pick(['min', 'max'])
             self.feats.add('min-max')
             av = _unwrap(a[1])
+            self.tmap[f'{fn}({a[0]})'] = self.ty(a[0])
             if av is None:
                 return f'{fn}({a[0]})', None
             try:
@@ -325,6 +366,7 @@ class EG:
             a = self.expr(depth - 1, allow_extreme)
             self.feats.add('distinct')
             av = _unwrap(a[1])
+            self.tmap[f'(distinct {a[0]})'] = self.ty(a[0])
             if av is None:
                 return f'(distinct {a[0]})', None
             out = []
@@ -336,32 +378,34 @@ class EG:
             # array literal of singletons, then unpack
             els = [self.single(depth - 1, allow_extreme) for _ in range(self.i(1, 3))]
             self.feats.add('array-unpack')
-            return 'array_unpack([' + ', '.join(t for t, _ in els) + '])', _cat(els)
+            return self.reg('array_unpack([' + ', '.join(t for t, _ in els) + '])',
+                            lub([self.ty(t) for t, _ in els]), _cat(els))
         if c == 10:
             a = self.expr(depth - 1, allow_extreme)
             self.feats.add('subquery')
             lim = self.i(0, 2)
             av = _unwrap(a[1])
+            self.tmap[f'(select {a[0]} limit {lim})'] = self.ty(a[0])
             if av is None:
                 return f'(select {a[0]} limit {lim})', None
             # LIMIT without ORDER BY: any subset of that size; membership is judged on all candidates
             return f'(select {a[0]} limit {lim})', ('subset', list(av), lim)
         a = self.single(depth - 1, allow_extreme)
         self.feats.add('tuple-element')
-        return f'({a[0]}, 1).0', a[1]
+        return self.reg(f'({a[0]}, 1).0', self.ty(a[0]), a[1])
 
     def small(self, depth):
         ty = self.pick(NUMT)
         self.types.add(ty)
         t, v = lit(ty, self.i(1, 3))
-        return t, [v]
+        return self.reg(t, ty, [v])
 
     def single(self, depth, allow_extreme):
         c = self.i(0, 2)
         if c == 0 and allow_extreme:
             h = self.pick([k for k in HOLDER if k != 'SStr'])
             self.types.add(HOLDER[h][0])
-            return f'assert_single({h}.v)', [HOLDER[h][1]]
+            return self.reg(f'assert_single({h}.v)', HOLDER[h][0], [HOLDER[h][1]])
         return self.small(depth)
 
     def top(self):
@@ -371,23 +415,28 @@ class EG:
         d = self.i(1, 3)
         if c <= 4:
             t, v = self.expr(d)
+            self.doc_type = ('scalar', self.ty(t))
             return f'select {t}', ('set', v)
         if c == 5:
             els = [self.single(d, True) for _ in range(self.i(1, 4))]
             self.feats.add('array-literal')
+            self.doc_type = ('array', lub([self.ty(t) for t, _ in els]))
             return 'select [' + ', '.join(t for t, _ in els) + ']', ('arrayset', _cat(els))
         if c == 6:
             t, v = self.expr(d)
             self.feats.add('array_agg')
+            self.doc_type = ('array', self.ty(t))
             return f'select array_agg({t})', ('arrayset', v)
         if c == 7:
             els = [self.single(d, True) for _ in range(self.i(2, 3))]
             self.feats.add('tuple')
+            self.doc_type = ('tuple', [self.ty(t) for t, _ in els])
             return 'select (' + ', '.join(t for t, _ in els) + ')', ('tuple', [v for _, v in els])
         if c == 8:
             els = [self.single(d, True) for _ in range(self.i(1, 3))]
             t2, v2 = self.expr(d)
             self.feats.add('array-in-set')
+            self.doc_type = ('array', lub([lub([self.ty(t) for t, _ in els]), self.ty(t2)]))
             return 'select {[' + ', '.join(t for t, _ in els) + '], array_agg(' + t2 + ')}', \
                 ('arrays', [_cat(els), v2])
         t, v = self.expr(d, allow_extreme=False)     # no overflow: sums of small operands only
@@ -458,10 +507,14 @@ def run_typed(case):
     info['stype'] = ir.stype.get_displayname(ir.schema)
     exp = pickle.loads(bytes.fromhex(case['exp']))
     viol = []
+    r = _doc_matches(case.get('doc_type'), tt)
+    if r:
+        viol.append(('static-type-differs-from-documented-casts',
+                     f'`{text}`: {r}'))
     kind = exp[0]
     if exp[1] is None:
-        info['status'] = 'not-evaluable'
-        return [], info
+        info['status'] = 'ok' if viol else 'not-evaluable'
+        return viol, info
     if kind == 'tuple':
         if tt[0] != 'tuple' or len(tt[1]) != len(exp[1]):
             viol.append(('tuple-structure', f'`{text}`: inferred {info["stype"]} for a {len(exp[1])}-tuple'))
@@ -601,8 +654,47 @@ def _strategy():
         g = EG(draw)
         text, exp = g.top()
         return dict(stream='typed', text=text, exp=pickle.dumps(exp).hex(), types=sorted(g.types),
+                    doc_type=_jsonable(g.doc_type),
                     features=sorted(g.feats), check_descriptor=draw(st.integers(0, 3)) == 0)
     return cases()
+
+
+def _jsonable(x):
+    if isinstance(x, tuple):
+        return [_jsonable(y) for y in x]
+    if isinstance(x, list):
+        return [_jsonable(y) for y in x]
+    return x
+
+
+def _doc_matches(doc, tt):
+    """doc: ['scalar', ty] | ['array', ty] | ['tuple', [ty...]]; ty = numeric name | None | '?'.
+    -> None if consistent / not comparable, else text"""
+    if doc is None:
+        return None
+    kind, d = doc[0], doc[1]
+    if kind == 'tuple':
+        if tt[0] != 'tuple' or len(tt[1]) != len(d):
+            return None
+        for k, (x, t) in enumerate(zip(d, tt[1])):
+            r = _doc_matches(['scalar', x], t)
+            if r:
+                return f'element {k}: {r}'
+        return None
+    if d == '?':
+        return None
+    if kind == 'array':
+        if tt[0] != 'array':
+            return None
+        tt = tt[1]
+    if tt[0] != 'scalar':
+        return None
+    if d is None:
+        return (f'the documented implicit casts give the operand types no common type, yet the expression '
+                f'is accepted with type {tt[1]}')
+    if tt[1] != 'std::' + d:
+        return f'the documented implicit casts make the common type {d}, the compiler infers {tt[1]}'
+    return None
 
 
 def _run(rec, case):
